@@ -391,6 +391,23 @@ def block_sound(a, cur, out, exc, rec, strict=True):
                 inside = And(a.ed.lo <= oa, ob <= a.ed.hi) if OL is t.OL else False
                 need = And(need, Or(Not(placed_by_edit(a, s)), inside))
             conds.append(Implies(need, cover))
+        # not padded (edits that delete nothing: insert, move): when a member
+        # of the old block survives in this list, the first and the last
+        # statement of the forwarded block are members of the old block, not
+        # statements the edit put next to it.  (For replace / delete / wrap the
+        # new statements stand for deleted or wrapped members of the block.)
+        if not getattr(a.ed, "no_padding", False):
+            continue
+        members = []
+        for m, x in enumerate(NL):
+            oc = old_content(x, otags)
+            ks = [idx_in_OL(w) for w in oc]
+            if oc and all(k is not None for k in ks):
+                members.append((m, And([And(oa <= k, k < ob) for k in ks])))
+        has_surv = Or([And(a2 <= m, m < b2, c) for m, c in members])
+        first_ok = Or([And(a2 == m, c) for m, c in members])
+        last_ok = Or([And(b2 - 1 == m, c) for m, c in members])
+        conds.append(Implies(And(gn, has_surv), And(first_ok, last_ok)))
     return And(conds)
 
 
@@ -496,6 +513,8 @@ def edit_contract(qualname, g_edit, do_edit, expected_model, min_n=0, shapes=Non
         if "rebuilt" not in ed.__dict__:
             ed.rebuilt = t.ancestors()
         kind, probes = g_probes(g, t, split_else_blocks)
+        if kind == "rest":
+            probes += g.ghost.get("extra_probes", [])
         return {"t": t, "ed": ed, "probes": probes}
 
     c.entry = lambda g, it, fn, a: drive(Runner(it), fn, a, do_edit)
@@ -556,7 +575,7 @@ def g_insert(g, t):
     m = g.choose([1, 2, 0], "n_ins")
     stmts = [leaf(f"new{j}") for j in range(m)]
     gap = IC.Gap(t.root, IC.Node(t.root, t.ppath + [(t.attr, k)]), ty)
-    return Edit(k=k, ty=ty, stmts=stmts, gap=gap)
+    return Edit(k=k, ty=ty, stmts=stmts, gap=gap, no_padding=True)
 
 
 def do_insert(R, fn, a):
@@ -710,7 +729,7 @@ def g_move(g, t):
         g.assume(Not(And(lo <= q, q < hi)))
     gap = IC.Gap(t.root, IC.Node(t.root, list(p) + [(a2, k)]), ty)
     return Edit(lo=lo, hi=hi, blk=blk, gap=gap, tpath=list(p), tattr=a2, tlist=l, k=k, ty=ty,
-                rebuilt=t.ancestors() + t.ancestors(list(p)), moves=True)
+                rebuilt=t.ancestors() + t.ancestors(list(p)), moves=True, no_padding=True)
 
 
 def do_move(R, fn, a):
@@ -809,6 +828,7 @@ def g_nrepl(g, t):
     else:
         attr, new = "cond", LoopIR.Read(Sym("nc"), [], T.bool, SRC)
     cur = IC.Node(t.root, spath + [(attr, None)])
+    g.ghost["extra_probes"] = [("expr_self", IC.Node(t.root, spath + [(attr, None)]))]
     rebuilt = t.ancestors(spath[:-1] if which == "leaf" else spath)
     if which == "leaf":
         rebuilt = rebuilt + list(t.OL)
@@ -838,6 +858,23 @@ def _(a):
         for gn, sn in news:
             conds.append(Implies(And(go, gn), And(tag(sn) is tag(so), type(sn) is type(so),
                                                   getattr(sn, a.ed.attr) is a.ed.new)))
+    return And(conds)
+
+
+@_cnr.ensures("a cursor to the replaced attribute is forwarded to the new value")
+def _(a):
+    r = a.result
+    if r.edit_exc is not None:
+        return True
+    conds = []
+    for kind, cur, out, exc in r.results:
+        if kind != "expr_self":
+            continue
+        if exc is not None or not isinstance(out, IC.Node) or out._root is not r.new_root:
+            return False
+        ok, cands = resolve_g(r.new_root, out._path)
+        conds.append(ok)
+        conds += [Implies(gd, n is a.ed.new) for gd, n in cands]
     return And(conds)
 
 
@@ -965,9 +1002,11 @@ def _(a):
     inv = Ite(j < r, j, j - m)
     S.cut(Implies(And(j >= 0, Not(And(r <= j, j < r + m))), cat3(g, j, r, m, 0) == _L(g, inv)),
           "origin of a non-inserted element of the new list")
+    isnew = lambda x: And(r <= x, x < r + m)
     return And(0 <= nr.start, nr.start < nr.stop,
                Implies(in_rng(a.rng, e), in_rng(nr, pos)),                       # nothing lost
-               Implies(And(in_rng(nr, j), Not(And(r <= j, j < r + m))), in_rng(a.rng, inv)))  # nothing foreign
+               Implies(And(in_rng(nr, j), Not(isnew(j))), in_rng(a.rng, inv)),   # nothing foreign
+               Not(isnew(nr.start)), Not(isnew(nr.stop - 1)))                    # not padded with inserted statements
 
 
 # ---- replace ------------------------------------------------------------------
